@@ -199,11 +199,12 @@ func (r *Runtime) builtinJSON_stringify(call FunctionCall) Value {
 		if isArray(replacer) {
 			length := toLength(replacer.self.getStr("length", nil))
 			seen := map[unistring.String]bool{}
-			propertyList := make([]Value, length)
-			length = 0
-			for index := range propertyList {
+			// do not size the list by the array's length: `a=[]; a.length=2**32-1` would ask for 64 GiB up front and the
+			// Go runtime aborts the whole process ("fatal error: out of memory"); the list only ever holds distinct names
+			propertyList := []Value{}
+			for index := int64(0); index < length; index++ {
 				var name String
-				value := replacer.self.getIdx(valueInt(int64(index)), nil)
+				value := replacer.self.getIdx(valueInt(index), nil)
 				switch v := value.(type) {
 				case valueFloat, valueInt, String:
 					name = value.toString()
@@ -223,10 +224,9 @@ func (r *Runtime) builtinJSON_stringify(call FunctionCall) Value {
 					continue
 				}
 				seen[key] = true
-				propertyList[length] = name
-				length += 1
+				propertyList = append(propertyList, name)
 			}
-			ctx.propertyList = propertyList[0:length]
+			ctx.propertyList = propertyList
 		} else if c, ok := replacer.self.assertCallable(); ok {
 			ctx.replacerFunction = c
 		}
